@@ -48,6 +48,10 @@ BENIGN = [
 
 OPS = {
     "C01": [
+        op("start-state-1", "fire", [(D, "            init_state=0,\n            root_atom=None,", "            init_state=1,\n            root_atom=None,")], ["V0"]),
+        op("root-atom-extra-budget", "fire", [(G, "    bonds_left = bond_cap - bond_order\n    next_state = None if (bonds_left == 0) else bonds_left\n    return bond_order, next_state\n\n\ndef next_branch_state",
+                                              "    bonds_left = bond_cap - bond_order + (state == 0)\n    next_state = None if (bonds_left == 0) else bonds_left\n    return bond_order, next_state\n\n\ndef next_branch_state")], ["V2", "V1"]),
+        op("branch-keeps-full-state", "fire", [(G, "    next_state = state - branch_init_state", "    next_state = state")], ["V3"]),
         op("setter-keeps-callers-dict", "fire", [(B, "        _current_constraints = dict(bond_constraints)", "        _current_constraints = bond_constraints")], ["V8"]),
         op("drop-rfree-clamp", "fire", [(D, "        order = min(order, lfree, rfree)", "        order = min(order, lfree)")], ["V5"]),
         op("le0-to-lt0", "fire", [(D, "        if lfree <= 0 or rfree <= 0:", "        if lfree < 0 or rfree < 0:")], ["V5"]),
@@ -64,6 +68,10 @@ OPS = {
                                                "    return _current_constraints.get(key) or _current_constraints[\"?\"]")], ["V7"]),
     ],
     "C02": [
+        op("start-state-1", "fire", [(D, "            init_state=0,\n            root_atom=None,", "            init_state=1,\n            root_atom=None,")], ["T0"]),
+        op("ring-dispatch-misaligned", "fire", [(D, '        elif "ng" == symbol[-4:-2]:', '        elif "ng" == symbol[-5:-3]:')], ["T7"]),
+        op("atom-budget-not-spent", "fire", [(G, "    bonds_left = bond_cap - bond_order\n    next_state = None if (bonds_left == 0) else bonds_left\n    return bond_order, next_state\n\n\ndef next_branch_state",
+                                             "    bonds_left = bond_cap\n    next_state = None if (bonds_left == 0) else bonds_left\n    return bond_order, next_state\n\n\ndef next_branch_state")], ["T1"]),
         op("ring-symbol-not-validated-in-state-0", "fire", [(D, '            output = process_ring_symbol(symbol)\n            if output is None:\n                _raise_decoder_error(selfies, symbol)\n            ring_type, n, stereo = output\n\n            if state == 0:\n                next_state = state\n            else:\n                ring_order, next_state = next_ring_state(ring_type, state)', '            if state == 0:\n                next_state = state\n            else:\n                output = process_ring_symbol(symbol)\n                if output is None:\n                    _raise_decoder_error(selfies, symbol)\n                ring_type, n, stereo = output\n                ring_order, next_state = next_ring_state(ring_type, state)')], ["T8"]),
         op("ring-no-decrement", "fire", [(G, "    bonds_left = state - bond_order\n    next_state = None if (bonds_left == 0) else bonds_left\n    return bond_order, next_state\n\n\ndef get_index",
                                           "    bonds_left = state\n    next_state = None if (bonds_left == 0) else bonds_left\n    return bond_order, next_state\n\n\ndef get_index")], ["T3"]),
@@ -80,6 +88,9 @@ OPS = {
                                                "    if atom.bonding_capacity < 0:\n        _PROCESS_ATOM_CACHE[symbol] = (bond_info, None)\n        return None")], ["T8"]),
     ],
     "C03": [
+        op("ring-arity-capped", "fire", [(E, "                    _ring_bonds_to_selfies(rev_bond, bond),\n                    len(Q_as_symbols)\n", "                    _ring_bonds_to_selfies(rev_bond, bond),\n                    min(len(Q_as_symbols), 2)\n")], ["R4"]),
+        op("encoder-own-atom-printer", "fire", [(E, '    return "[{}{}]".format(bond_char, atom_to_smiles(atom, brackets=False))',
+                                                  '    body = atom.element + ("" if atom.charge == 0 else "{:+}".format(atom.charge))\n    return "[{}{}]".format(bond_char, body)')], ["R5"]),
         op("explicit-aromatic-bond-read-as-single", "fire", [(S, "    order = SMILES_BOND_ORDERS.get(bond_char, 1)", "    order = int(SMILES_BOND_ORDERS.get(bond_char, 1))")], ["R3"]),
         op("decoder-drops-isotope-zero", "fire", [(G, '    isotope = None if (isotope == "") else int(isotope)\n    if element not in ELEMENTS:\n        return None\n    chirality = None', '    isotope = None if (isotope == "") else int(isotope)\n    isotope = isotope or None\n    if element not in ELEMENTS:\n        return None\n    chirality = None')], ["R9"]),
         op("strict-check-ignores-explicit-hydrogens", "fire", [(E, '        bond_cap = atom.bonding_capacity\n', '        bond_cap = get_bonding_capacity(atom.element, atom.charge)\n'), (E, 'from selfies.exceptions import EncoderError, SMILESParserError\n', 'from selfies.bond_constraints import get_bonding_capacity\nfrom selfies.exceptions import EncoderError, SMILESParserError\n')], ["R8"]),
@@ -93,6 +104,9 @@ OPS = {
         op("memo-reading-table-not-cleared", "fire", [(B, "    get_bonding_capacity.cache_clear()\n", "")], ["R7"]),
     ],
     "C04": [
+        op("marks-on-double-ring-bond", "fire", [(E, "    if (lbond.order != 1) or all(b.stereo is None for b in (lbond, rbond)):", "    if (lbond.order == 3) or all(b.stereo is None for b in (lbond, rbond)):")], ["S2", "S1"]),
+        op("ring-bond-directions-differ-in-order", "fire", [(M, "        b_bond = DirectedBond(b, a, order, b_stereo, True)", "        b_bond = DirectedBond(b, a, 1, b_stereo, True)")], ["S3"]),
+        op("ring-bond-ctor-by-keyword", "silent", [(M, "        b_bond = DirectedBond(b, a, order, b_stereo, True)", "        b_bond = DirectedBond(src=b, dst=a, order=order, stereo=b_stereo, ring_bond=True)")]),
         op("memoised-parse-flipped-in-place", "fire", [(S, "def smiles_to_mol(smiles: str, attributable: bool) -> MolecularGraph:", "@functools.lru_cache(maxsize=1024)\ndef smiles_to_mol(smiles: str, attributable: bool) -> MolecularGraph:"), (S, "import enum\n", "import enum\nimport functools\n")], ["S7"]),
         op("parity-through-a-local", "silent", [(E, "    return count % 2 != 0  # if odd permutation, should invert chirality", "    odd = (count % 2 == 1)\n    return odd")]),
         op("ring-flag-through-helper", "silent", [(M, "        self._ring_bond_flags[a] = True\n        self._ring_bond_flags[b] = True\n", "        self._mark_ring_atom(a)\n        self._mark_ring_atom(b)\n"),
@@ -151,6 +165,8 @@ OPS = {
         op("drop-alphabet-clear", "fire", [(B, "    get_semantic_robust_alphabet.cache_clear()", "    pass")], ["A4"]),
     ],
     "C08": [
+        op("ring-guard-lt0", "fire", [(D, "            if state == 0:\n                next_state = state\n            else:\n                ring_order, next_state", "            if state < 0:\n                next_state = state\n            else:\n                ring_order, next_state")], ["X-assert"]),
+        op("index-reader-wrong-except", "fire", [(D, "        except StopIteration:\n            index_symbols.append(None)", "        except KeyError:\n            index_symbols.append(None)")], ["X-next"]),
         op("no-valueerror-conversion", "fire", [(D, "    except ValueError as err:\n        raise DecoderError(str(err)) from None", "    except KeyError as err:\n        raise DecoderError(str(err)) from None")], ["X-explicit"]),
         op("untry-table-lookup", "fire", [(G, "    try:\n        return _PROCESS_BRANCH_CACHE[symbol]\n    except KeyError:\n        return None", "    return _PROCESS_BRANCH_CACHE[symbol]")], ["X-subscript"]),
         op("valueerror-for-bad-symbol", "fire", [(D, "    raise DecoderError(err_msg)", "    raise ValueError(err_msg)")], ["X-explicit"]),
@@ -162,6 +178,9 @@ OPS = {
                                          "    return _current_constraints.setdefault(key, _current_constraints[\"?\"])")], ["NW"]),
     ],
     "C09": [
+        op("greedy-drops-free-degree-guard", "fire", [(K_MATCH, "        if (matching[node] is not None) or (free_degrees[node] == 0):", "        if matching[node] is not None:")], ["EST"]),
+        op("new-reachable-assert", "fire", [(E, "                ring_len = bond.src - bond.dst\n", "                ring_len = bond.src - bond.dst\n                assert ring_len > 1\n")], ["X-assert"]),
+        op("free-degree-guard-as-lt1", "silent", [(K_MATCH, "        if (matching[node] is not None) or (free_degrees[node] == 0):", "        if (matching[node] is not None) or free_degrees[node] < 1:")]),
         op("narrow-handler", "fire", [(E, "    except SMILESParserError as err:", "    except KeyError as err:")], ["X-explicit"]),
         op("plain-valueerror", "fire", [(S, '                raise SMILESParserError(smiles, "hanging bracket [", i)', '                raise ValueError("hanging bracket")')], ["X-explicit"]),
         op("remove-stack-guard", "fire", [(S, "                if not branch_stack:\n                    err_msg = \"hanging ')' bracket\"\n                    raise SMILESParserError(smiles, err_msg, tok.start_idx)\n", "")], ["X-pop"]),
@@ -172,6 +191,7 @@ OPS = {
         op("remove-chain-start-check", "fire", [(S, "        elif chain_start:\n            err_msg = \"SMILES chain begins with non-atom\"\n            raise SMILESParserError(smiles, err_msg, tok.start_idx)\n\n", "")], ["EST", "X-none-deref"]),
     ],
     "C10": [
+        op("lowercase-h-count", "fire", [(S, '            builder.append("H")\n            builder.append(str(atom.h_count))', '            builder.append("h")\n            builder.append(str(atom.h_count))')], ["L3"]),
         op("decoder-drops-isotope-zero", "fire", [(G, '    isotope = None if (isotope == "") else int(isotope)\n    if element not in ELEMENTS:\n        return None\n    chirality = None', '    isotope = None if (isotope == "") else int(isotope)\n    isotope = isotope or None\n    if element not in ELEMENTS:\n        return None\n    chirality = None')], ["L5"]),
         op("strict-check-ignores-explicit-hydrogens", "fire", [(E, '        bond_cap = atom.bonding_capacity\n', '        bond_cap = get_bonding_capacity(atom.element, atom.charge)\n'), (E, 'from selfies.exceptions import EncoderError, SMILESParserError\n', 'from selfies.bond_constraints import get_bonding_capacity\nfrom selfies.exceptions import EncoderError, SMILESParserError\n')], ["L4"]),
         op("revert-charge-pattern", "fire", [(G, "[+-][1-9][0-9]*", "[+-][1-9]+")], ["L1"]),
@@ -215,6 +235,7 @@ OPS = {
         op("fragments-joined-with-space", "fire", [(E, '    result = ".".join(fragments), attribution_maps', '    result = " ".join(fragments), attribution_maps')], ["K1"]),
     ],
     "C15": [
+        op("batch-ignores-pad", "fire", [(U, "        one_hot = selfies_to_encoding(selfies, vocab_stoi, pad_to_len,", "        one_hot = selfies_to_encoding(selfies, vocab_stoi, -1,")], ["U4"]),
         op("remove-enc-type-check", "fire", [(U, "    if enc_type not in (\"label\", \"one_hot\"):\n        raise ValueError(\"enc_type must be in ('label', 'one_hot')\")\n", "")], ["U1"]),
         op("get-with-default", "fire", [(U, "        integer_encoded.append(vocab_stoi[char])", "        integer_encoded.append(vocab_stoi.get(char, 0))")], ["U2"]),
         op("pad-plus-one", "fire", [(U, '        selfies += "[nop]" * (pad_to_len - len_selfies(selfies))', '        selfies += "[nop]" * (pad_to_len - len_selfies(selfies) + 1)')], ["U5"]),
@@ -222,6 +243,7 @@ OPS = {
         op("shared-row", "fire", [(U, "    for index in integer_encoded:\n        letter = [0] * len(vocab_stoi)", "    letter = [0] * len(vocab_stoi)\n    for index in integer_encoded:")], ["U6"]),
     ],
     "C16": [
+        op("index-arity-4", "fire", [(G, "def _build_ring_cache():\n    cache = dict()\n    for L in range(1, 4):", "def _build_ring_cache():\n    cache = dict()\n    for L in range(1, 5):")], ["I4"]),
         op("default-digit-1", "fire", [(G, "        index += INDEX_CODE.get(c, 0) * (len(INDEX_CODE) ** i)", "        index += INDEX_CODE.get(c, 1) * (len(INDEX_CODE) ** i)")], ["I3"]),
         op("radix-10", "fire", [(G, "        index //= base", "        index //= 10")], ["I5"]),
         op("read-position-not-symbol", "fire", [(D, "            index_symbols.append(next(symbol_iter)[-1])", "            index_symbols.append(next(symbol_iter)[0])")], ["I3"]),
